@@ -26,6 +26,8 @@ import SqiProofs.ThetaBalanced
 import SqiModel.SkelTheta
 import SqiProofs.SkelThetaSim
 import SqiProofs.SkelThetaFSim
+import SqiProofs.SkelThetaConv
+import SqiProofs.SkelThetaFConv
 import SqiProps.C18
 
 set_option maxRecDepth 100000
@@ -102,6 +104,26 @@ theorem translated_theta_chain_faster_refines (P : Params) (oracle : Nat → Boo
     Final P (SqiGen.ChainSkel.theta_chain_comput_strategy_faster_no_eval SqiModel.SkelTheta.obs P.row oracle fuel P.n
         (if P.eightAbove then 1 else 0) (SqiGen.ChainSkel.ThetaFSt.init (SqiModel.SkelTheta.OSt.init P.kexp))) (chain P) :=
   skel_refines P oracle fuel _ hfn hfr rfl he
+
+/-- **the tie is an equivalence on the fault status** (both routines): the run of the translated skeleton is fault-free
+    iff the hand model `chain` is (`SqiProofs.SkelThetaConv` / `SkelThetaFConv`: converse simulation with one "dies" lemma per
+    fault site of the hand model: `loop0_dead`, `pts_dead`, `loop4_dead`, `push_dead`, `strat_dead`, `while_dead`,
+    `body3_dead`, `iter_dead`, `for_dead`, `skel_dead`).  With `translated_theta_chain_refines` (same final state and logs
+    when fault-free) the kernel-evaluated `skeleton_agrees_small` is redundant. -/
+theorem translated_theta_chain_fault_iff (P : Params) (oracle : Nat → Bool) (fuel : Nat)
+    (hfn : P.n + 11 ≤ fuel) (hfr : P.row.length ≤ fuel) :
+    (((SqiGen.ChainSkel.theta_chain_comput_strategy SqiModel.SkelTheta.obs P.row oracle fuel P.n
+        (if P.eightAbove then 1 else 0) (SqiGen.ChainSkel.ThetaSt.init (SqiModel.SkelTheta.OSt.init P.kexp))).fault = none ∧
+      (SqiGen.ChainSkel.theta_chain_comput_strategy SqiModel.SkelTheta.obs P.row oracle fuel P.n
+        (if P.eightAbove then 1 else 0) (SqiGen.ChainSkel.ThetaSt.init (SqiModel.SkelTheta.OSt.init P.kexp))).obs.bad = false) ↔
+      (chain P).err = none) ∧
+    (((SqiGen.ChainSkel.theta_chain_comput_strategy_faster_no_eval SqiModel.SkelTheta.obs P.row oracle fuel P.n
+        (if P.eightAbove then 1 else 0) (SqiGen.ChainSkel.ThetaFSt.init (SqiModel.SkelTheta.OSt.init P.kexp))).fault = none ∧
+      (SqiGen.ChainSkel.theta_chain_comput_strategy_faster_no_eval SqiModel.SkelTheta.obs P.row oracle fuel P.n
+        (if P.eightAbove then 1 else 0) (SqiGen.ChainSkel.ThetaFSt.init (SqiModel.SkelTheta.OSt.init P.kexp))).obs.bad = false) ↔
+      (chain P).err = none) :=
+  ⟨SqiProofs.SkelThetaConv.skel_live_iff P oracle fuel _ hfn hfr rfl,
+   SqiProofs.SkelThetaFConv.skel_live_iff P oracle fuel _ hfn hfr rfl⟩
 
 /-- soundness of the hand model transferred to the translated text of both routines: no fault, the same number of
     strategy entries consumed, every gluing / generic kernel pair of exponent 3 (order 8), the two final ones 2 and 1 -/
